@@ -143,8 +143,7 @@ def r1_identifiers(ctx: Ctx) -> None:
             for t in s.targets:
                 if isinstance(t, ast.Subscript) and src(t.value) in ('custom_captures', 'field_positions'):
                     sites.append((pf, t.slice, s, f'CSV capture name ({src(t.value)})'))
-    if len(sites) < 8:
-        raise AnalysisError(f'C04.R1: only {len(sites)} definition sites found (10 confirmed by hand)')
+    ctx.need(not (len(sites) < 8), f'C04.R1: only {len(sites)} definition sites found (10 confirmed by hand)')
     for f, key, node, what in sites:
         ok = key_lowered(f, key, node)
         ctx.check(ok, 'C04.R1', f, f'define:{what}', f'{what} stored under a lower-cased key ({src(key)})',
